@@ -57,6 +57,45 @@ func c17String(s []byte, dstScratch []byte) (nontrivial bool, err error) {
 	if len(b) < 3 || string(b[:3]) != "DST" || !bytes.Equal(b[3:], want) {
 		return nontrivial, fmt.Errorf("StdLibCompatibleStringBytes(%q, \"DST\") = %q; want \"DST\"+%q", s, b, want)
 	}
+	// destinations with every amount of spare capacity between none and a little more than the
+	// output needs (short inputs), or on both sides of the input length and of the output length
+	// (long inputs): what the helper reserves up front must not decide what it appends
+	{
+		var spares []int
+		if len(want) <= 24 {
+			for sp := 0; sp <= len(want)+2; sp++ {
+				spares = append(spares, sp)
+			}
+		} else {
+			spares = []int{0, 1, 2, 3, len(s) - 1, len(s), len(s) + 1, len(s) + 2, len(s) + 3, (len(s) + len(want)) / 2, len(want) - 3, len(want) - 2, len(want) - 1, len(want), len(want) + 1, 2 * len(want)}
+		}
+		pres := []string{"", "DST"}
+		if len(want) > 24 {
+			pres = pres[1:]
+		}
+		if len(want) > 4096 {
+			spares = []int{len(s), len(s) + 2, len(want) - 1}
+		}
+		for _, pre := range pres {
+			for _, sp := range spares {
+				if sp < 0 {
+					continue
+				}
+				if cap(dstScratch) < len(pre)+sp {
+					dstScratch = make([]byte, 0, 2*(len(pre)+sp))
+				}
+				dst := append(dstScratch[:0], pre...)
+				full := dst[:len(pre)+sp]
+				for i := len(pre); i < len(full); i++ {
+					full[i] = 0xCC
+				}
+				b = rjson.StdLibCompatibleStringBytes(s, dst[:len(pre):len(pre)+sp])
+				if len(b) < len(pre) || string(b[:len(pre)]) != pre || !bytes.Equal(b[len(pre):], want) {
+					return nontrivial, fmt.Errorf("StdLibCompatibleStringBytes(%q, dst=%q with %d spare bytes) = %q; want dst+%q", s, pre, sp, b, want)
+				}
+			}
+		}
+	}
 	// destinations that end in an incomplete multi-byte sequence which the input's first
 	// bytes would complete: the result must still be dst ++ oracle(input)
 	if len(s) <= 6 || len(s)%7 == 0 {
